@@ -27,7 +27,7 @@ type fieldClass struct {
 	writers []string // functions allowed to write (ShortName prefixes)
 }
 
-var c15Table = map[string]map[string]fieldClass{
+var c15TableRef = map[string]map[string]fieldClass{
 	"conn": {
 		"mu": {class: "sync"}, "requestsWg": {class: "sync"}, "writerMu": {class: "sync"},
 		"connID": {class: "immutable", writers: []string{"newConn"}}, "logger": {class: "immutable", writers: []string{"newConn"}},
@@ -202,6 +202,20 @@ func checkC15(c *Ctx) {
 		return
 	}
 	fns := c.shippedFuncs(G, TD)
+	// the classification table under the field names of the program at hand (a renamed field is the same field: fld)
+	c15Table := map[string]map[string]fieldClass{}
+	for typ, fields := range c15TableRef {
+		c15Table[typ] = map[string]fieldClass{}
+		for f, fc := range fields {
+			if typ == "conn" || typ == "Server" {
+				if fc.guard != "" {
+					fc.guard = fld(typ, fc.guard)
+				}
+				f = fld(typ, f)
+			}
+			c15Table[typ][f] = fc
+		}
+	}
 	pkgOf := map[string]string{"conn": G, "Server": G, "Mux": G, "ResponseWriter": G, "Directory": TD}
 	// ---- classification completeness (fields the table does not know are classified from their accesses below)
 	type unlistedField struct {
@@ -587,6 +601,9 @@ func checkC15(c *Ctx) {
 					continue
 				}
 				onConn := connSlice[a.fn] && !insideGoClosureBelow(a.fn, m.connFn)
+				if partOfStartTLS, _ := syncOnlyFrom(a.fn, startTLS, c.shippedFuncs(G), 0); startTLS != nil && partOfStartTLS {
+					onConn = true // a helper that runs only as part of Request.StartTLS (served inline by the read loop: C13-dispatch)
+				}
 				if a.fn == startTLS || c.effRoot(a.fn, 0) == rootFn(m.run) && !insideGoClosure(a.fn) || a.fn == c.P.Func(G, "(*conn).initConn") {
 					onConn = true
 				}
